@@ -318,19 +318,23 @@ def abiBasicAlign (tg : Target) : Basic → Nat
   | .int64 | .uint64 | .float64 | .complex128 => 8
   | .int | .uint | .uintptr | .unsafePointer | .string => tg.ptrSize
 
-/-- `Builder.Size` (struct: `b.Sizes.Sizeof(t)` where `b.Sizes` is the `goProgram` wrapper) -/
-def abiSize (tg : Target) : GoType → Nat
+/-- `Builder.Size` (struct: `b.Sizes.Sizeof(t)` where `b.Sizes` is the `goProgram` wrapper); `fw` = the number of
+    words recorded for a `*types.Signature` (1 in the code as it is, 2 with `fixes/C08-2.diff`) -/
+def abiSizeG (tg : Target) (fw : Nat) : GoType → Nat
   | .basic b => abiBasicSize tg b
   | .pointer _ => tg.ptrSize
   | .map _ _ => tg.ptrSize
   | .chan _ => tg.ptrSize
-  | .func => tg.ptrSize
+  | .func => fw * tg.ptrSize
   | .slice _ => 3 * tg.ptrSize
   | .iface _ => 2 * tg.ptrSize
   | .closure => goSizeof tg .closure
-  | .array n e => n * abiSize tg e
+  | .array n e => n * abiSizeG tg fw e
   | .struct fs => goSizeof tg (.struct fs)
-  | .named t => abiSize tg t
+  | .named t => abiSizeG tg fw t
+
+/-- the code as it is -/
+def abiSize (tg : Target) (t : GoType) : Nat := abiSizeG tg 1 t
 
 mutual
 /-- `Builder.Align` = `Builder.FieldAlign`, for a given table `ba` of basic-kind alignments -/
@@ -372,6 +376,16 @@ def abiBasicAlignFixed (tg : Target) : Basic → Nat
 
 def abiTableFixed (tg : Target) (t : GoType) : Layout :=
   ⟨abiSize tg (toRaw t), abiAlignG tg (abiBasicAlignFixed tg) (toRaw t), abiOffsets tg t⟩
+
+/-- `abi.PublicType`: the descriptor *referenced* for an element, key, field or parameter of closure type is the
+    descriptor of the source function type -/
+def publicType : GoType → GoType
+  | .closure => .func
+  | t => t
+
+/-- `Size_` of the descriptor that map, slice, pointer, chan, array and struct descriptors reference for an element of
+    Go type `t` (`b.abiType(abi.PublicType(elem))`): what `typedmemmove(t.Elem, …)`, `SliceClear` … copy or clear -/
+def elemDescSize (tg : Target) (fw : Nat) (t : GoType) : Nat := abiSizeG tg fw (publicType (toRaw t))
 
 /-! ## map buckets (`ssa/abi/map.go` `MapBucketType`, `abiExtendedFields`) -/
 
